@@ -689,6 +689,10 @@ func (sc *specCtx) call(e *ast.CallExpr) Value {
 			out.C[j] = Ite(Select(Select(sc.st.region(hasR, SArr(SArr(SBool))), m.C[0]), k), Select(Select(sc.st.region(vals[j], SArr(SArr(c.Sort))), m.C[0]), k), zeroOf(c.Sort))
 		}
 		return out
+	case "sid":
+		// identity of a string value (equal strings have equal ids)
+		v := sc.eval(arg(0))
+		return mInt(App("strid", SInt, v.C[0], v.C[1], v.C[2]))
 	case "boxed":
 		// boxed(T, v): the interface value holding v of concrete type T
 		t := sc.typeExpr(arg(0))
